@@ -5,9 +5,11 @@ package c11
 
 import (
 	"fmt"
+	"math"
 	"testing"
 
 	"github.com/ctessum/geom"
+	"github.com/ctessum/geom/index/rtree"
 	"pgregory.net/rapid"
 	"verif/props/rtreekit"
 	"verif/vkit"
@@ -15,7 +17,55 @@ import (
 
 type Case = rtreekit.History
 
-func gen(t *rapid.T) Case { return rtreekit.GenHistory(t, "search") }
+func gen(t *rapid.T) Case {
+	c := rtreekit.GenHistory(t, "search")
+	if rapid.IntRange(0, 5).Draw(t, "nantail") == 0 {
+		c.NaNTail = rapid.IntRange(1, 6).Draw(t, "nantailn")
+	}
+	return c
+}
+
+// nanTail: see History.NaNTail
+func nanTail(tr *rtree.Rtree, c Case) string {
+	var nans []*geom.Bounds
+	size := tr.Size()
+	for i := 0; i < 3*c.Max+c.NaNTail; i++ {
+		x, y := float64(i*5%17), float64(i*3%13)
+		b := &geom.Bounds{Min: geom.Point{X: x, Y: y}, Max: geom.Point{X: x + float64(i%3), Y: y + float64(i%2)}}
+		if i%(3*c.Max/c.NaNTail+1) == 1 && len(nans) < c.NaNTail {
+			switch len(nans) % 4 {
+			case 0:
+				b.Min.X = math.NaN()
+			case 1:
+				b.Max.Y = math.NaN()
+			case 2:
+				b.Min.Y = math.NaN()
+			default:
+				b.Max.X = math.NaN()
+			}
+			nans = append(nans, b)
+		}
+		tr.Insert(b)
+		size++
+	}
+	if tr.Size() != size {
+		return fmt.Sprintf("Size() = %d after the inserts of the tail, %d objects are stored", tr.Size(), size)
+	}
+	absent := &geom.Bounds{Min: geom.Point{X: math.NaN(), Y: 1}, Max: geom.Point{X: 2, Y: 2}}
+	if tr.Delete(absent) {
+		return "Delete of a *Bounds that was never stored (its box has a NaN coordinate) returned true"
+	}
+	for k, b := range nans {
+		if !tr.Delete(b) {
+			return fmt.Sprintf("Delete of stored object %d of the tail, a *Bounds %+v (found by identity, whatever its box), returned false", k, *b)
+		}
+		size--
+		if tr.Size() != size {
+			return fmt.Sprintf("Size() = %d after deleting object %d of the tail, %d objects are stored", tr.Size(), k, size)
+		}
+	}
+	return ""
+}
 
 func sameMultiset(got []geom.Geom, want []geom.Geom) string {
 	for _, g := range got {
@@ -94,6 +144,16 @@ func run(c Case) (v vkit.Verdict) {
 			return v.Fail("after op %d (%s) of %d [min=%d max=%d kind=%s]: %s", i, op.K, len(c.Ops), c.Min, c.Max, c.Kind, msg)
 		}
 	}
+	if c.NaNTail > 0 {
+		v.Class("tail_of_boxes_with_a_nan_coordinate")
+		var msg string
+		if p := vkit.Catch(func() { msg = nanTail(m.Tree, c) }); p != "" {
+			return v.Fail("the tail of boxes with a NaN coordinate panicked: %s", p)
+		}
+		if msg != "" {
+			return v.Fail("[min=%d max=%d kind=%s] %s", c.Min, c.Max, c.Kind, msg)
+		}
+	}
 	v.NonTrivial = ev.Underflow || ev.RootCollapse || ev.Refilled
 	if ev.Underflow {
 		v.Class("node_underflow")
@@ -116,7 +176,8 @@ func TestProp(t *testing.T) {
 			"object, delete an absent look-alike, delete everything in a strided order, search with a drawn box; insert-heavy and delete-heavy phases alternate. After every mutating " +
 			"step: Size, covering search as a multiset, and - through the verif snapshot hook - leaves at one depth = Depth(), every entry box the exact envelope of its subtree, " +
 			"fan-out <= max; delete of a stored object returns true, of an absent one false with the dumped structure unchanged; no panic. Non-trivial = the history contains a delete " +
-			"that removes a node (underflow) or lowers the depth (root collapse), or drains the tree and refills it. Distinct by case hash.",
+			"that removes a node (underflow) or lowers the depth (root collapse), or drains the tree and refills it. Distinct by case hash." +
+			" Round 13: one history in six ends with a tail that stores 3*max finite boxes and 1-6 boxes with a NaN coordinate as pointers and deletes the latter again (Delete true, Size follows, an absent one false, no panic; searches and structure are not judged with such boxes inside).",
 		Assumptions: []string{"the structural clauses are read through the build-tag verif snapshot (index/rtree/verif_walk.go)"},
 		Gen:         gen,
 		Run:         run,
